@@ -30,7 +30,7 @@ RULE = ("Hypothesis generates (models, operation history) pairs: 2..3 whole mode
         "stratum forces two models that reuse the same custom-form names with different formulas, one forces "
         "under-specified EAM models with >= 2 zero-filled species) and 4..14 build/write/evaluate/rebuild "
         "operations (further strata: a custom form used directly and as a sub-form; EAM models over the same elements "
-        "with different [Species] overrides); the interpreter checks the invariants after every step. Non-trivialoperations; the interpreter checks the invariants after every step. Non-trivial = >= 2 distinct models "
+        "with different [Species] overrides); the interpreter checks the invariants after every step. Non-trivial = >= 2 distinct models "
         "and an evaluate between two writes of the same model; distinct = canonical JSON. Stage B runs the models "
         "of the run in child processes under five hash seeds and shuffled orders, and pairs of models (after its "
         "neighbour vs alone) in fresh processes.")
